@@ -188,3 +188,9 @@ class Blake2(Case):
 
 for c in (Blake, BlakePreset, Blake2):
     register(c())
+
+
+# ---- lemmas for the stubs this check relies on (see props.common.Borrowed) ----
+from props.common import Borrowed, REGISTRY
+from props import c01 as _c01
+register(Borrowed(REGISTRY['C01.reverse_byte'], 'C11', 'reverse_byte'))
